@@ -282,31 +282,67 @@ def lists(ctx, g):
     '''recursive list productions keep the elements in source order'''
     r = ctx.rule('C07-LISTS', 'recursive list productions build their lists in source order', floor=5,
                  oracle='position of the recursive symbol in the production')
+    from .. import absint
     for p in g.productions:
         if p.head not in p.syms:
             continue
         k = p.syms.index(p.head) + 1
-        body = [x for b in body_without_doc(p.fn) for x in ast.walk(b) if isinstance(x, ast.stmt)]
-        if not any(pm.match('p[0] = p[%d]' % k, st) is not None for st in body):
+        fn = p.fn
+        P = param_names(fn)[0] if param_names(fn) else 'p'
+        if not any(pm.match('%s[0] = _V' % P, x) is not None for b_ in body_without_doc(fn) for x in ast.walk(b_) if isinstance(x, ast.stmt)):
             continue
-        for st in body:
-            m = pm.match('p[0].children.insert(_IDX, p[_J])', st)
-            how = 'insert'
-            if m is None:
-                m = pm.match('p[0].children.append(p[_J])', st)
-                how = 'append'
-            if m is None or not isinstance(m['_J'], ast.Constant):
+
+        def slot(e):
+            m = pm.match('%s[_J]' % P, e)
+            return m['_J'].value if m and isinstance(m['_J'], ast.Constant) else None
+
+        def result_alias(e, s, tr):
+            j = slot(e['_V'])
+            if j is None:
+                return False
+            s['result'] = j
+            return True
+
+        def target_slot(x, s):
+            j = slot(x)
+            if j == 0:
+                return s.get('result')
+            return j
+
+        def op(how):
+            def f(e, s, tr):
+                t = target_slot(e['_X'], s)
+                j = slot(e['_E'])
+                if t is None or j is None:
+                    return False
+                idx = e.get('_IDX')
+                tr.append((how, t, j, idx.value if isinstance(idx, ast.Constant) else None, e))
+                return True
+            return f
+        present = [('%s[_J] is None' % P, lambda e, s, tr: False), ('%s[_J] is not None' % P, lambda e, s, tr: True),
+                   ('%s[_J]' % P, lambda e, s, tr: True)]
+        it = absint.Interp(fn, present, [('%s[0] = _V' % P, result_alias), ('_X.children.insert(_IDX, _E)', op('insert')),
+                                         ('_X.children.append(_E)', op('append'))])
+        state = {}
+        try:
+            out, tr = it.run(state)
+        except AnalysisError:
+            continue        # not a list-building action in the idioms of this rule
+        if state.get('result') != k:
+            continue
+        for how, t, j, idx, e in tr:
+            if t != k:
                 continue
-            j = m['_J'].value
+            st = e['_X']
             if j < k:
-                ok = how == 'insert' and isinstance(m['_IDX'], ast.Constant) and m['_IDX'].value == 0
+                ok = how == 'insert' and idx == 0
                 want = 'inserted at the front (the list of the LATER elements is p[%d])' % k
             else:
                 ok = how == 'append'
                 want = 'appended (the list of the EARLIER elements is p[%d])' % k
             r.check(ok, '%s: element p[%d] is %s' % (p.fn.name, j, want), st, construct=CLS + '.' + p.fn.name, key='list-order',
                     msg='%s (%s): the element p[%d] stands %s the recursive symbol p[%d], so it must be %s; `%s` reverses the order of the '
-                        'elements in the tree' % (p.fn.name, p, j, 'before' if j < k else 'after', k, want, src(st)))
+                        'elements in the tree' % (p.fn.name, p, j, 'before' if j < k else 'after', k, want, how))
 
 
 def node_ctors(ctx, g):
